@@ -365,6 +365,21 @@ class Check:
             self.broken_obligation("theorems of %s depend on unexpected axioms: %s" % (self.pid, extra))
             return False
         self.assumptions += ["Print Assumptions: " + (", ".join(r["assumptions"]) if r["assumptions"] else "closed under the global context")]
+        if self.tier == "thorough" and os.environ.get("VERIF_NO_COQCHK") != "1":
+            # independent re-check of the compiled property file and everything it depends on
+            with Lock("coqchk"):
+                rc2, out = sh("timeout 2400 coqchk -silent -o -R . Raven Raven.Properties.%s 2>&1" % self.pid, cwd=COQ, timeout=2500)
+            m = re.search(r"\* Axioms:\s*(.*?)\n\s*\n", out, re.S)
+            axs = re.sub(r"\s+", " ", m.group(1)).strip() if m else "?"
+            self.cov["coqchk"] = {"rc": rc2, "axioms": axs}
+            self.assumptions.append("coqchk -o: axioms = %s" % axs)
+            if rc2 != 0:
+                self.broken_obligation("coqchk rejects Properties/%s.vo or a dependency:\n%s" % (self.pid, out[-2000:]))
+                return False
+            bad = [a for a in re.split(r"[\s,]+", axs) if a and a != "<none>" and a.split(".")[-1] not in ALLOWED_AXIOMS and a not in ALLOWED_AXIOMS]
+            if bad:
+                self.broken_obligation("coqchk reports axioms outside the named standard-library set: %s" % bad)
+                return False
         return True
 
     # -- reporting ----------------------------------------------------------
